@@ -1,7 +1,8 @@
 (** C09 — no real run of a modelled method on a real function beats the returned bound.
     Property theorems only; proofs live in Proofs/MethodLemmas.v (and the files of C03 / C01). *)
 From Coq Require Import List QArith Reals Qreals Lra Arith Bool.
-From PV Require Import Base.IPS Model.Dict Model.Terms Model.Method Spec.Sem Spec.World Proofs.MethodLemmas.
+From PV Require Import Base.IPS Model.Dict Model.Terms Model.Sent Model.Cvxpy Model.Method Spec.Sem Spec.World Spec.KKT
+  Proofs.MethodLemmas Proofs.C09Bound.
 Import ListNotations.
 Local Open Scope R_scope.
 
@@ -33,6 +34,42 @@ Theorem C09_free_leaves_keep_values :
     fst (wrun W (ops1 ++ MFresh :: ops2) s vs) (m_np (mrun ops1 s)) = fst (wrun W ops1 s vs) (m_np (mrun ops1 s)).
 Proof. exact (@wrun_free_leaf). Qed.
 
+
+(** Weak duality at a real valuation: the Gram matrix of the values of the leaf points is symmetric
+    PSD and the Gram reading of every expression at it is the expression's value, so a valuation under
+    which every item sent to the solver holds (class constraints: C03; step constraints: C08;
+    partition constraints: C15; the user's initial condition: assumption) is a feasible point of the
+    SDP, and any dual certificate (C01: identity, signs, PSD multipliers) bounds the objective. *)
+Theorem C09_real_valuation_bounded :
+  forall (E : ips) (rho : nat -> E) (phi : nat -> R)
+         (np : nat) (obj : edict) (tracked : sent) (duals : list dval) (res : list (list Q)) (tau : R),
+    length duals = length tracked ->
+    certificate_identity obj (combine tracked duals) res tau ->
+    dual_feasible (combine tracked duals) ->
+    rank1sum res np ->
+    Forall (item_holds_at rho phi) tracked ->
+    evalE rho phi obj <= tau.
+Proof. exact (@real_valuation_bounded). Qed.
+
+(** The performance of the run: PEPit maximises a fresh leaf o under the rows  o - metric_k <= 0 ; no
+    other item mentions o.  Whatever the real run achieves -- any t below all its metric values, in
+    particular the smallest metric -- is below the certified bound tau. *)
+Theorem C09_performance_bounded :
+  forall (E : ips) (rho : nat -> E) (phi : nat -> R) (o np : nat)
+         (metrics : list (item * edict)) (others : sent)
+         (duals : list dval) (res : list (list Q)) (tau t : R),
+    let tracked := map fst metrics ++ others in
+    length duals = length tracked ->
+    certificate_identity [(KF o, 1%Q)] (combine tracked duals) res tau ->
+    dual_feasible (combine tracked duals) ->
+    rank1sum res np ->
+    Forall (fun im => is_metric_row rho o (fst im) (snd im)) metrics ->
+    Forall (fun it => item_mentions o it = false) others ->
+    Forall (item_holds_at rho phi) others ->
+    (forall im, In im metrics -> t <= evalE rho phi (snd im)) ->
+    t <= tau.
+Proof. exact (@performance_bounded). Qed.
+
 (** Non-vacuity: two gradient steps x1 = x0 - 1/2 g0, x2 = x1 - 1/2 g1 on a leaf function, run in the
     world "f(x) = x^2 on the real line": the program is well formed and records two samples. *)
 Example C09_example_program :
@@ -43,3 +80,5 @@ Proof. cbv zeta. split; vm_compute; reflexivity. Qed.
 Print Assumptions C09_recorded_samples_are_genuine.
 Print Assumptions C09_existing_leaves_keep_values.
 Print Assumptions C09_free_leaves_keep_values.
+Print Assumptions C09_real_valuation_bounded.
+Print Assumptions C09_performance_bounded.
